@@ -6,6 +6,11 @@ BASE = json.load(open("/root/.vp/BASELINE.json"))["cmd"] if os.path.exists("/roo
     "cd /repo && /venv/bin/python -m pytest -ra -q -p no:cacheprovider --timeout=900 --continue-on-collection-errors"
 
 CLAIMED = {
+ "C14": dict(
+    technique="static analysis: width-interval abstract interpretation of the writer's string building against the fixed MPS field table, reader slice/vocabulary extraction, loop-domain rule for row labels, constant propagation through the reader's RANGES/BOUNDS decision code over a finite abstract input set",
+    text="Static over op.tofile/op.fromfile: every name and number field of every record kind the writer emits sits exactly on a fixed-format MPS field and the reader slices exactly those fields; headers and row/bound codes written are handled by the reader and unknown codes raise; row labels in COLUMNS/RHS range over the rows of the constraint they label; constant propagation through the reader's RANGES and BOUNDS code gives, for every row type x sign of R and every bound type, exactly the interval the MPS format defines; tofile refuses non-LPs before opening the file. It does NOT decide 6-digit rounding, collisions of truncated names or equality of solve results.",
+    note="Trusted: CPython ast, the fixed MPS field table and RANGES/BOUNDS semantics encoded in sa/props/C14.py.",
+    ref="DESIGN.md section 3, C14"),
  "C06": dict(
     technique="static analysis: validate-before-use (statement order), dispatch-chain/validated-set equality, resolved call binding of every kkt_* factory arm, argument forwarding by call binding, block-offset extent algebra for start-point packing",
     text="Only the structural clauses of C06 are decided: each dispatching entry point (conelp, coneqp, cpl, cp) rejects an unsupported kktsolver name with ValueError in a statement preceding any use of the value, its defaults are accepted names, the dispatch chain handles exactly the validated names, every arm builds the matching misc.kkt_* factory with arguments its def accepts (rank pre-check raising ValueError first), lp/socp/sdp/qp/gp forward kktsolver unchanged, and the start-point packing follows the block layout. Equality of results across storage formats, KKT solvers, start points, re-encodings and back-ends is numerical and NOT decided.",
